@@ -1,8 +1,9 @@
 /-
   C12 — Match templates rewrite exactly the matching elements; hints only optimise.
   Property theorems only; the model is `Genshi/Model/Match*.lean` (`run`: the eager filter,
-  every content buffered; `runL`: the generator pipeline as an automaton, covers
-  `buffer="false"`), helper lemmas are in `Genshi/Lemmas/Match*.lean`.
+  every content buffered whatever the hint; `runL`: the generator pipeline as an automaton, which
+  honours `buffer="false"`; `lazy_eq_eager` proves them equal on well-nested streams), helper
+  lemmas are in `Genshi/Lemmas/Match*.lean`.
 
   All theorems are parametric in the matcher of each template: any state type `σ` and any
   `step : σ → Event → Bool → σ × Bool`; `Lawful` (an END undoes its START) is assumed only
@@ -12,7 +13,7 @@
   OBLIGATIONS (checked by the harness):
     hints_table nonmatching_passthrough nonmatching_template_irrelevant
     declaration_order_pipeline first_match_wins identity_body_is_identity_partial
-    once_hint_irrelevant
+    once_hint_irrelevant buffer_hint_irrelevant lazy_eq_eager window_footprint
     matcher_state_in_sync output_wellnested select_keeps_nesting
     lawful_single lawful_simple positional_not_lawful root_context_not_matched
 -/
@@ -21,6 +22,7 @@ import Genshi.Lemmas.MatchPipe
 import Genshi.Lemmas.MatchIns
 import Genshi.Lemmas.MatchPath
 import Genshi.Lemmas.MatchOnce
+import Genshi.Lemmas.MatchEquiv
 import Genshi.Model.MatchPath
 import Genshi.Model.MatchLazy
 import Genshi.Gen.MatchHints
@@ -114,6 +116,51 @@ theorem once_hint_irrelevant {σ : Type} (f : Nat) (items : List (Item σ)) (mts
   obtain ⟨c', b', h1, _, _⟩ := run_once i f 0 none none items mts _ r false hrel hi (fun _ _ => rfl) h
     (by simpa using hfew)
   exact ⟨c', h1⟩
+
+/-! ### the buffer hint -/
+
+/-- **The two models agree.**  On every well-nested, registration-free stream the generator
+    pipeline read as an automaton (`runL`, which honours `buffer="false"`) yields what the eager
+    filter (`run`, every content buffered) yields and leaves the template list in the same state,
+    provided the bodies are well nested and unbuffered bodies call `select()` at most once. -/
+theorem lazy_eq_eager {σ : Type} (f : Nat) (items : List (Item σ)) (mts : List (MT σ))
+    (r : List (MT σ) × List Event) (hnr : NoReg items) (hn : Neutral (evs items))
+    (hok : ∀ t ∈ mts, LazyOK t) (h : run f 0 none items mts = some r) (F : Nat) (hF : f ≤ F) :
+    runL F .idle items mts = some (.idle, r.1, r.2) := by
+  rw [runL_noReg F items .idle mts hnr]
+  exact auto_eq_run f 0 none items mts r hnr hn hok h F hF
+
+/-- **buffer_hint_irrelevant.**  Take two template lists that differ only in their `buffer` hints
+    (`mts'` any assignment of the hint whose unbuffered bodies call `select()` at most once — the
+    documented condition).  On every well-nested stream the filter that honours the hints of `mts'`
+    yields exactly the output of the filter that buffers everything.  No restriction on the paths:
+    with the repaired code positional predicates are covered too (DESIGN.md §6 #49 is fixed). -/
+theorem buffer_hint_irrelevant {σ : Type} (f : Nat) (items : List (Item σ)) (mts mts' : List (MT σ))
+    (r : List (MT σ) × List Event) (hnr : NoReg items) (hn : Neutral (evs items))
+    (hsame : mts'.map bufOn = mts.map bufOn) (hok : ∀ t ∈ mts', LazyOK t)
+    (h : run f 0 none items mts = some r) (F : Nat) (hF : f ≤ F) :
+    ∃ m', runL F .idle items mts' = some (.idle, m', r.2) := by
+  have h1 := run_bufOn f 0 none items mts hnr
+  have h2 := run_bufOn f 0 none items mts' hnr
+  rw [hsame, h1, h] at h2
+  simp only [Option.map_some] at h2
+  cases h' : run f 0 none items mts' with
+  | none => rw [h'] at h2; simp at h2
+  | some r' =>
+    rw [h'] at h2
+    simp only [Option.map_some, Option.some.injEq, Prod.mk.injEq] at h2
+    have := lazy_eq_eager f items mts' r' hnr hn hok h' F hF
+    rw [h2.2]
+    exact ⟨r'.1, this⟩
+
+/-- **Window footprint** (why the hint is irrelevant): a `_match(start, end)` generator reads and
+    writes only the slots of its window; the content of a match is matched against `[start, pre_end)`
+    and the body against `[idx+1, end)`, which are disjoint (`pre_end ≤ idx+1`). -/
+theorem window_footprint {σ : Type} (F s : Nat) (en : Option Nat) (A : Auto) (ev : Event) (hA : WF s en A)
+    (m y : List (MT σ)) (A' : Auto) (m' : List (MT σ)) (o : List Event) (hy : y.length = m.length)
+    (h : feed F s en A ev m = some (A', m', o)) :
+    m'.length = m.length ∧ feed F s en A ev (splice (win s en) m y) = some (A', splice (win s en) m' y, o) :=
+  feed_frames F s en A ev hA m y A' m' o hy h
 
 /-! ### matcher state and nesting -/
 
@@ -241,6 +288,20 @@ example : (run 30 0 none (docOnce tAB) [tAB, tWrap]).map (fun r => (hitsAt 0 r.1
     = some (1, [S 'w', S 'x', E 'x', E 'w', S 'c', E 'c']) := by decide
 example : (run 30 0 none (docOnce tAB) [onceAt tAB, tWrap]).map (·.2)
     = (run 30 0 none (docOnce tAB) [tAB, tWrap]).map (·.2) := by decide
+
+/-- the hypotheses of `buffer_hint_irrelevant` on a document with two firing templates, one of them
+    positional (`*[2]`): same output with the first template unbuffered -/
+def tPos : MT PSt := mkMT (.single none (some 2)) [.ev (S 'z'), .ev (E 'z')] noHints
+def docBuf : List (Item PSt) := [.ev (S 'a'), .ev (T 'u'), .ev (S 'b'), .ev (E 'b'), .ev (E 'a'), .ev (S 'c'), .ev (E 'c')]
+example : LazyOK ({ tWrap with buffered := false } : MT PSt) := by
+  refine ⟨?_, fun _ => ?_⟩
+  · intro st; simp [tWrap, mkMT, MT.ofHints, trackB, track, S, E]
+  · simp [OneSel, tWrap, mkMT, MT.ofHints, splitBody, NoSel]
+example : Neutral (evs docBuf) := by
+  intro st; simp [docBuf, evs, track, S, E, T]
+example : (runL 30 .idle docBuf [{ tWrap with buffered := false }, tPos]).map (·.2.2)
+    = (run 30 0 none docBuf [tWrap, tPos]).map (·.2) := by decide
+example : (run 30 0 none docBuf [tWrap, tPos]).map (·.2) = some [S 'w', S 'z', E 'z', E 'w', S 'c', E 'c'] := by decide
 
 example : NeverFires (σ := PSt) { step := fun st _ _ => (st, false), st := {}, body := [] } := fun _ _ _ => rfl
 example : BodyOK tWrap.body := by
